@@ -183,7 +183,17 @@ def run(ctx):
         a = [Tc.operand(x) for x in chain[0][1]["args"]]
         okn = a[1][0] == "call" and a[1][1] == "std::iter::once" and a[1][2][0][0] == "call" and a[1][2][0][1] == "std::ptr::null"
         okn = okn and a[0][0] == "call" and a[0][1] == "std::iter::Iterator::map" and not M.contains(a[0], lambda u: u[0] == "call" and u[1].split("::")[-1] in ("rev", "skip", "take", "filter", "step_by"))
-    ctx.ob("R06.2", "CVec.null-terminated-in-order", okn, cv.loc(0), "ptrs = strings.iter().map(..).chain(once(null)) with no reordering adaptor")
+    if not okn:
+        # alternative idiom: collect the pointers, then push the terminator
+        pu = cv.calls_to(lambda f: M.callee_str(f) == "std::vec::Vec::<T, A>::push")
+        co = [(b_, t_) for b_, t_ in cv.calls() if M.callee_str(t_["f"]) == "std::iter::Iterator::collect" and "*const" in t_["dest"]["ty"]]
+        if len(pu) == 1 and len(co) == 1:
+            v_ = Tc.operand(pu[0][1]["args"][1])
+            it_ = Tc.operand(co[0][1]["args"][0])
+            okn = v_[0] == "call" and v_[1] == "std::ptr::null" and Tc.addr(pu[0][1]["args"][0]) is not None and dominated_by_blocks(cv, pu[0][0], [co[0][0]]) \
+                and it_[0] == "call" and it_[1] == "std::iter::Iterator::map" and not M.contains(it_, lambda u: u[0] == "call" and u[1].split("::")[-1] in ("rev", "skip", "take", "filter", "step_by")) \
+                and all(dominated_by_blocks(cv, b_, [pu[0][0]]) for b_, si_, r_ in aggregates_of(cv, "posix::CVec"))
+    ctx.ob("R06.2", "CVec.null-terminated-in-order", okn, cv.loc(0), "ptrs = the strings' pointers in order, followed by one NULL (chain(once(null)) or push(null) after collecting), no reordering adaptor")
     aggs = aggregates_of(cv, "posix::CVec")
     for bb, si, r in aggs:
         s_ = Tc.operand(r["ops"][r["fields"].index("strings")])
